@@ -16,8 +16,9 @@ inductive Sev
 structure D where
   sev : Sev
   hasLabel : Bool        -- len(Labels) > 0
-  nilLoc : Bool          -- Labels[0].Location == nil
-  file : List Nat        -- *Location.Filename as bytes ("" when nil)
+  nilLoc : Bool          -- Labels[0].Location == nil (or its Start is nil)
+  fileKey : Nat          -- *Location.Filename ("" when nil) as a number whose order is the byte-wise order of the names
+                         -- (big-endian value of the name padded with zero bytes to a fixed width; computed by the driver)
   line : Nat             -- Location.Start.Line
   col : Nat              -- not compared
   id : Nat               -- stands for message, code, notes …
@@ -70,18 +71,12 @@ def runPipeline (front mir codegen : List D) (skip : Bool) : PipeState :=
 
 /-! ### sortDiagnostics -/
 
-def lexLt : List Nat → List Nat → Bool
-  | [], [] => false
-  | [], _ :: _ => true
-  | _ :: _, [] => false
-  | a :: as, b :: bs => if a < b then true else if b < a then false else lexLt as bs
-
 /-- the comparator passed to sort.SliceStable -/
 def less (a b : D) : Bool :=
   if !a.hasLabel || !b.hasLabel then false
   else if a.nilLoc then false
   else if b.nilLoc then true
-  else if a.file ≠ b.file then lexLt a.file b.file
+  else if a.fileKey ≠ b.fileKey then a.fileKey < b.fileKey
   else if a.line ≠ b.line then a.line < b.line
   else false
 
